@@ -3,6 +3,7 @@ CONSTANTS ChildCodes = {0, 77}
   ExtSigs = {5, 9, 15}
   MCExits = {0, 1, 2, 99, 127, 128, 255}
   DeliverTrap = FALSE
+  LowByteSignal = FALSE
   WaitGroup = FALSE
 SPECIFICATION Spec
 INVARIANTS VerdictOK ErrorOK RunnerErrorOnlyForRunner BadExecIsRunnerError ChildLimitImpl FateOK ImplExitOK
